@@ -263,6 +263,14 @@ impl Dist {
 
     fn dist_sample<R: RngCore>(self, rng: &mut R) -> f64 {
         use rand::Rng;
+        #[cfg(feature = "verif")]
+        if !crate::verif::in_dist() {
+            crate::verif::set_in_dist(true);
+            let v = self.dist_sample(rng);
+            crate::verif::set_in_dist(false);
+            crate::verif::push(crate::verif::Entry::DistRaw { bits: v.to_bits() });
+            return v;
+        }
         match self.dist {
             DistType::Uniform { low, high } => {
                 // special common case for handcrafted machines, also not
